@@ -49,6 +49,7 @@ BENIGN = [
 
 OPS = {
     "C01": [
+        op("dearomatise-by-sweeping-the-bond-table", "fire", [(M, "        for node in ds:\n            for adj in ds[node]:\n                self.update_bond_order(node, adj, new_order=1)\n", "        for bond in self._bond_dict.values():\n            if bond.order == 1.5:\n                bond.order = 1\n                self._bond_counts[bond.src] -= 0.5\n                self._bond_counts[bond.dst] -= 0.5\n        for node in ds:\n")], ["V6"]),
         op("kekulize-recounts-from-adjacency", "fire", [(M, "            self._bond_counts[node] = int(self._bond_counts[node])", "            self._bond_counts[node] = sum(b.order for b in self._adj_list[node])")], ["V6"]),
         op("start-state-1", "fire", [(D, "            init_state=0,\n            root_atom=None,", "            init_state=1,\n            root_atom=None,")], ["V0"]),
         op("root-atom-extra-budget", "fire", [(G, "    bonds_left = bond_cap - bond_order\n    next_state = None if (bonds_left == 0) else bonds_left\n    return bond_order, next_state\n\n\ndef next_branch_state",
@@ -92,6 +93,8 @@ OPS = {
                                                "    if atom.bonding_capacity < 0:\n        _PROCESS_ATOM_CACHE[symbol] = (bond_info, None)\n        return None")], ["T8"]),
     ],
     "C03": [
+        op("isotope-0-not-printed", "fire", [(S, "        if atom.isotope is not None:\n            builder.append(str(atom.isotope))", "        if atom.isotope:\n            builder.append(str(atom.isotope))")], ["R12"]),
+        op("kekulize-skipped-without-aromatic-atoms", "fire", [(E, "    if not mol.kekulize():", "    if any(a.is_aromatic for a in mol.get_atoms()) and not mol.kekulize():")], ["R13"]),
         op("H0-read-as-one-hydrogen", "fire", [(S, "        h_count = 1 if (s == \"\") else int(s)", "        h_count = int(s or 1) or 1")], ["R11"]),
         op("roots-as-set", "fire", [(M, "        self._roots = list()", "        self._roots = set()"), (M, "            self._roots.append(atom.index)", "            self._roots.add(atom.index)")], ["R10"]),
         op("ring-arity-capped", "fire", [(E, "                    _ring_bonds_to_selfies(rev_bond, bond),\n                    len(Q_as_symbols)\n", "                    _ring_bonds_to_selfies(rev_bond, bond),\n                    min(len(Q_as_symbols), 2)\n")], ["R4"]),
@@ -135,6 +138,8 @@ OPS = {
         op("closure-marks-swapped-ends", "fire", [(S, "        a=latom.index, a_stereo=lstereo, a_pos=lpos,\n        b=ratom.index, b_stereo=rstereo,", "        a=latom.index, a_stereo=lstereo, a_pos=lpos,\n        b=ratom.index, b_stereo=lstereo,")], ["S6"]),
     ],
     "C05": [
+        op("only-lowest-valence-satisfies", "fire", [(M, "            if any(used_electrons == v - atom.charge for v in valences):", "            if used_electrons == valences[0] - atom.charge:"),
+                                                        (M, "                return not ((free_electrons >= 0) and (free_electrons % 2 != 0))", "                return free_electrons % 2 == 0")], ["K6"]),
         op("double-bonds-written-inside-the-reset-loop", "fire", [(M, "            self._bond_counts[node] = int(self._bond_counts[node])\n\n        for matched_labels in enumerate(matching):\n            matched_nodes = tuple(label_to_node[i] for i in matched_labels)\n            self.update_bond_order(*matched_nodes, new_order=2)\n",
                                                                        "            self._bond_counts[node] = int(self._bond_counts[node])\n            if node in node_to_label and matching[node_to_label[node]] < node_to_label[node]:\n                self.update_bond_order(label_to_node[matching[node_to_label[node]]], node, new_order=2)\n")], ["K9"]),
         op("half-bond-lost-in-electron-count", "fire", [(M, "                               + int(self._bond_counts[node]) \n                               + int(2 * (self._bond_counts[node] % 1)))", "                               + round(self._bond_counts[node]))")], ["K6"]),
@@ -159,6 +164,7 @@ OPS = {
         op("failure-tested-with-if-else", "silent", [(E, "    if not mol.kekulize():\n        err_msg = \"kekulization failed\\n\\tSMILES: {}\".format(smiles)\n        raise EncoderError(err_msg)\n", "    if mol.kekulize():\n        pass\n    else:\n        err_msg = \"kekulization failed\\n\\tSMILES: {}\".format(smiles)\n        raise EncoderError(err_msg)\n")]),
     ],
     "C06": [
+        op("dearomatise-by-sweeping-the-bond-table", "fire", [(M, "        for node in ds:\n            for adj in ds[node]:\n                self.update_bond_order(node, adj, new_order=1)\n", "        for bond in self._bond_dict.values():\n            if bond.order == 1.5:\n                bond.order = 1\n                self._bond_counts[bond.src] -= 0.5\n                self._bond_counts[bond.dst] -= 0.5\n        for node in ds:\n")], ["Q1"]),
         op("kekulize-recounts-from-adjacency", "fire", [(M, "            self._bond_counts[node] = int(self._bond_counts[node])", "            self._bond_counts[node] = sum(b.order for b in self._adj_list[node])")], ["Q1"]),
         op("setter-keeps-callers-dict", "fire", [(B, "        _current_constraints = dict(bond_constraints)", "        _current_constraints = bond_constraints")], ["Q4"]),
         op("ge-comparator", "fire", [(E, "        if bond_count > bond_cap:", "        if bond_count >= bond_cap:")], ["Q1"]),
@@ -212,6 +218,7 @@ OPS = {
         op("remove-chain-start-check", "fire", [(S, "        elif chain_start:\n            err_msg = \"SMILES chain begins with non-atom\"\n            raise SMILESParserError(smiles, err_msg, tok.start_idx)\n\n", "")], ["EST", "X-none-deref"]),
     ],
     "C10": [
+        op("isotope-0-not-printed", "fire", [(S, "        if atom.isotope is not None:\n            builder.append(str(atom.isotope))", "        if atom.isotope:\n            builder.append(str(atom.isotope))")], ["L7"]),
         op("symbol-isotope-0-read-as-absent", "fire", [(G, "    isotope = None if (isotope == \"\") else int(isotope)", "    isotope = (int(isotope) or None) if isotope else None")], ["L6", "L5"]),
         op("lowercase-h-count", "fire", [(S, '            builder.append("H")\n            builder.append(str(atom.h_count))', '            builder.append("h")\n            builder.append(str(atom.h_count))')], ["L3"]),
         op("decoder-drops-isotope-zero", "fire", [(G, '    isotope = None if (isotope == "") else int(isotope)\n    if element not in ELEMENTS:\n        return None\n    chirality = None', '    isotope = None if (isotope == "") else int(isotope)\n    isotope = isotope or None\n    if element not in ELEMENTS:\n        return None\n    chirality = None')], ["L5"]),
@@ -285,6 +292,8 @@ OPS = {
         op("no-reverse", "fire", [(G, "    return symbols[::-1]", "    return symbols")], ["I5"]),
     ],
     "C17": [
+        op("encoder-branch-offset-constant-instead-of-shift", "fire", [(E, "                    attribution_index + len(derived))", "                    attribution_index + len(derived) + 2)"),
+                                                                          (E, "                for j in range(start, end):\n                    attribution_maps[j].index += len(Q_as_symbols) + 1\n", "")], ["TE6"]),
         op("encoder-recursive-call-drops-own-offset", "fire", [(E, "                    mol, bond, bond.dst, attribution_maps,\n                    attribution_index + len(derived))", "                    mol, bond, bond.dst, attribution_maps, len(derived))")], ["TE6"]),
         op("encoder-shift-start-hoisted", "fire", [(E, "        out_bonds = mol.get_out_dirbonds(curr)\n        for i, bond in enumerate(out_bonds):", "        start = len(attribution_maps)\n        out_bonds = mol.get_out_dirbonds(curr)\n        for i, bond in enumerate(out_bonds):"),
                                                       (E, "                start = len(attribution_maps)\n                branch = _fragment_to_selfies(", "                branch = _fragment_to_selfies(")], ["TE6"]),
@@ -320,6 +329,7 @@ OPS = {
         op("offset-accumulated-in-two-steps", "silent", [(D, "        attribution_index += n\n", "        consumed = n\n        attribution_index = attribution_index + consumed\n")]),
     ],
     "C18": [
+        op("expl-suffix-stripped-as-a-character-set", "fire", [(C, "            bond_char, atom_symbol = \"\", symbol[1:-5]", "            bond_char, atom_symbol = \"\", symbol.rstrip(\"expl]\")[1:]")], ["M3"]),
         op("rejected-symbol-cached-as-none", "fire", [(G, "        output = _process_atom_selfies_no_cache(symbol)\n        if output is None:\n            return None\n        _PROCESS_ATOM_CACHE[symbol] = output",
                                                            "        output = _process_atom_selfies_no_cache(symbol)\n        _PROCESS_ATOM_CACHE[symbol] = output\n        if output is None:\n            return None")], ["M6"]),
         op("ring-symbol-not-validated-in-state-0", "fire", [(D, '            output = process_ring_symbol(symbol)\n            if output is None:\n                _raise_decoder_error(selfies, symbol)\n            ring_type, n, stereo = output\n\n            if state == 0:\n                next_state = state\n            else:\n                ring_order, next_state = next_ring_state(ring_type, state)', '            if state == 0:\n                next_state = state\n            else:\n                output = process_ring_symbol(symbol)\n                if output is None:\n                    _raise_decoder_error(selfies, symbol)\n                ring_type, n, stereo = output\n                ring_order, next_state = next_ring_state(ring_type, state)')], ["M4"]),
@@ -329,6 +339,8 @@ OPS = {
         op("expl-with-brackets", "fire", [(C, "atom_to_smiles(atom, brackets=False)", "atom_to_smiles(atom, brackets=True)")], ["M3"]),
     ],
     "C19": [
+        op("placeholder-stored-before-the-parse", "fire", [(G, "        output = _process_atom_selfies_no_cache(symbol)\n        if output is None:\n            return None\n        _PROCESS_ATOM_CACHE[symbol] = output\n",
+                                                              "        _PROCESS_ATOM_CACHE[symbol] = None\n        output = _process_atom_selfies_no_cache(symbol)\n        if output is None:\n            del _PROCESS_ATOM_CACHE[symbol]\n            return None\n        _PROCESS_ATOM_CACHE[symbol] = output\n")], ["H3", "H1"]),
         op("recursion-limit-raised-in-call", "fire", [(E, "    if not mol.kekulize():", "    import sys\n    sys.setrecursionlimit(sys.getrecursionlimit() + 1)\n    if not mol.kekulize():")], ["H6"]),
         op("module-level-scratch-list", "fire", [(D, "    rings = []\n", "    rings = _RINGS\n    rings.clear()\n"), (D, "def decoder(", "_RINGS = []\n\n\ndef decoder(")], ["H1"]),
         op("mutable-default", "fire", [(D, "def _form_rings_bilocally(mol, rings):\n    rings_made = [0] * len(mol)", "def _form_rings_bilocally(mol, rings, seen=[]):\n    seen.append(1)\n    rings_made = [0] * len(mol)")], ["H1"]),
